@@ -40,6 +40,20 @@ class ChildProc(programs.ProgBase):
 generated.register(ChildProc, 'ChildProc')
 
 
+class EqChildProc(ChildProc):
+    """A job identified by what it is, not by which object it is: any two of them compare (and hash) equal.  Two equal children
+    are still two processes with an outcome each."""
+
+    def __eq__(self, other):
+        return type(other) is type(self)
+
+    def __hash__(self):
+        return hash(type(self))
+
+
+generated.register(EqChildProc, 'EqChildProc')
+
+
 class WcBase(plumpy.WorkChain):
     WCPROGRAM = None
 
@@ -99,7 +113,7 @@ class WcBase(plumpy.WorkChain):
         toctx = {}
         for idx in st.get('pre', ()):
             # a child launched now but handed to the context only by a later step
-            child = self.launch(ChildProc, inputs={'idx': idx})
+            child = self.launch(EqChildProc if self.WCPROGRAM.get('equal_children') else ChildProc, inputs={'idx': idx})
             env.children[idx] = child
             child.future().add_done_callback(lambda _f, idx=idx: env.done_order.append(['c', idx]))
         for key, idx, kind, how in st['reg']:
@@ -108,7 +122,7 @@ class WcBase(plumpy.WorkChain):
             elif kind == 'oldchild':
                 aw = env.children[idx]
             else:
-                aw = self.launch(ChildProc, inputs={'idx': idx})
+                aw = self.launch(EqChildProc if self.WCPROGRAM.get('equal_children') else ChildProc, inputs={'idx': idx})
                 env.children[idx] = aw
                 aw.future().add_done_callback(lambda _f, idx=idx: env.done_order.append(['c', idx]))
             if how == 'call':
